@@ -151,8 +151,8 @@ Conformance(ll, what, r, fns, e, own) ==
       okP == r.vt.p = cur.p
       leaves == IF okT THEN {} ELSE Leaves(a, b)
       blame ==    (IF leaves # {} THEN own \cup FieldOwners(leaves, cur.t.alt, what = "rs") ELSE {})
-              \cup (IF okP THEN {} ELSE {"C03", "C12"})
-              \cup (IF what = "rs" \/ (okSb /\ "buf.lines" \notin leaves) THEN {} ELSE {"C06", "C14"})
+              \cup (IF okP THEN {} ELSE {"C03"})
+              \cup (IF okSb \/ what = "rs" THEN {} ELSE own)
       detail == " fns=" \o S(FnNames(fns))
                 \o (IF okT THEN "" ELSE " tdiff=" \o S(leaves))
                 \o (IF okP THEN "" ELSE " parser: spec=" \o ToJson(r.vt.p) \o " impl=" \o ToJson(cur.p))
@@ -173,7 +173,7 @@ Handle(ll, e) ==
      msgs |-> (IF f = e.st THEN <<>> ELSE <<Msg("CONF", ll, "what=new owners={\"C19\"} tdiff=" \o S(TermDiff(f.t, e.st.t)))>>)
               \o StateMsgs(ll, e.st, <<>>, e.st, e)]
   ELSE IF k = "panic" THEN
-    [vts |-> [vts EXCEPT ![e.slot] = Dead], gh |-> gh,
+    [vts |-> IF e.slot = 0 THEN vts ELSE [vts EXCEPT ![e.slot] = Dead], gh |-> gh,
      msgs |-> <<Msg("FAIL C01", ll, "panic in " \o e.op \o ": " \o e.msg)>>]
   ELSE IF k \in {"fs", "fc", "rs"} THEN
     LET s == e.slot  prev == vts[s]  cur == e.st IN
